@@ -155,6 +155,22 @@ type recorder struct {
 	hdrMode string
 	// streamMode: how the streaming handler obtains / answers messages.
 	streamMode string
+	// byName: the handlers of this mux use another generation of the message
+	// types; recorded messages are carried over by field NAME (JSON) into the
+	// harness's own types.
+	byName bool
+}
+
+func (rc *recorder) carry(in proto.Message) proto.Message {
+	if rc.byName {
+		if js, err := protojson.Marshal(in); err == nil {
+			out := vschema.NewMsg(vschema.Msg(string(in.ProtoReflect().Descriptor().FullName())))
+			if protojson.Unmarshal(js, out) == nil {
+				return out
+			}
+		}
+	}
+	return cloneMsg(in)
 }
 
 func (rc *recorder) setHdrMode(m string) {
@@ -198,7 +214,7 @@ func (rc *recorder) setReply(m proto.Message) {
 
 func (rc *recorder) Unary(ctx context.Context, md protoreflect.MethodDescriptor, in proto.Message) (proto.Message, error) {
 	rc.mu.Lock()
-	rc.calls = append(rc.calls, call{method: vschema.FullMethod(md), msg: cloneMsg(in)})
+	rc.calls = append(rc.calls, call{method: vschema.FullMethod(md), msg: rc.carry(in)})
 	rep := rc.reply
 	fn := rc.replyFn
 	hm := rc.hdrMode
@@ -503,6 +519,14 @@ func buildDynamic(rules []RuleSpec, kind string) (*env, error) {
 		return nil, fmt.Errorf("descriptor build: %w", err)
 	}
 	regFD := fd
+	if kind == muxRenum {
+		// another GENERATION of the service: same names, but the numbers of
+		// some same-kind fields are swapped; registry AND handlers use it
+		if regFD, err = rebuildWith(f.Proto(), renumTypes); err != nil {
+			return nil, fmt.Errorf("renumbered descriptor build: %w", err)
+		}
+		fd = regFD
+	}
 	if kind == muxSkew {
 		// the mux gets a SECOND build of the same descriptors, from a types
 		// file whose revision declares the fields in another order and adds
@@ -524,7 +548,7 @@ func buildDynamic(rules []RuleSpec, kind string) (*env, error) {
 	if err != nil {
 		return nil, err
 	}
-	e := &env{mux: mux, rec: &recorder{}, kind: kind, regErr: map[string]string{}, regPanic: map[string]*mon.PanicInfo{}}
+	e := &env{mux: mux, rec: &recorder{byName: kind == muxRenum}, kind: kind, regErr: map[string]string{}, regPanic: map[string]*mon.PanicInfo{}}
 	for _, o := range owners {
 		sd := fd.Services().ByName(protoreflect.Name(o.svc))
 		gsd := vschema.ServiceDesc(sd, e.rec)
@@ -612,7 +636,46 @@ const muxReplaced = "replaced-codecs"
 const (
 	muxWithOptions = "stats+interceptors"
 	muxSkew        = "skewed-registry"
+	muxRenum       = "renumbered-registry"
 )
+
+// renumTypes: a revision of vf/types.proto in which pairs of same-kind fields
+// have swapped numbers (Req a<->b, c<->d, n<->sn; Sub a<->b; Sub2 s unchanged).
+func renumTypes() (protoreflect.FileDescriptor, error) {
+	fdp := protodesc.ToFileDescriptorProto(vschema.TypesFile())
+	swap := map[string][][2]string{"Req": {{"a", "b"}, {"c", "d"}, {"n", "sn"}, {"rs", "long_name"}}, "Sub": {{"a", "b"}, {"l", "n"}}}
+	for _, m := range fdp.MessageType {
+		for _, pr := range swap[m.GetName()] {
+			var x, y *descriptorpb.FieldDescriptorProto
+			for _, f := range m.Field {
+				switch f.GetName() {
+				case pr[0]:
+					x = f
+				case pr[1]:
+					y = f
+				}
+			}
+			if x != nil && y != nil && x.GetType() == y.GetType() && x.GetLabel() == y.GetLabel() {
+				x.Number, y.Number = y.Number, x.Number
+			}
+		}
+	}
+	return protodesc.NewFile(fdp, protoregistry.GlobalFiles)
+}
+
+var (
+	renumOnce sync.Once
+	renumFD   protoreflect.FileDescriptor
+	renumErr  error
+)
+
+func rebuildWith(svc *descriptorpb.FileDescriptorProto, types func() (protoreflect.FileDescriptor, error)) (protoreflect.FileDescriptor, error) {
+	renumOnce.Do(func() { renumFD, renumErr = types() })
+	if renumErr != nil {
+		return nil, renumErr
+	}
+	return protodesc.NewFile(svc, skewResolver{renumFD})
+}
 
 type nopStats struct{}
 
